@@ -75,8 +75,16 @@ def k_numbering(rep):
             istart = eval(compile(ast.Expression(body=istart_expr), '<istart>', 'eval'), dict(env)) if istart_expr is not None else 0
             start = eval(compile(ast.Expression(body=start_expr), '<start>', 'eval'), dict(istart=istart)) if start_expr is not None else 0
             return core.lift(start) + k.e
-        c.oblige('numbering:distinct (group, position) pairs get distinct island numbers', z3.Implies(z3.Or(g1.e != g2.e, k1.e != k2.e), number(g1, k1) != number(g2, k2)))
-        c.oblige('numbering:island numbers are non-negative', number(g1, k1) >= 0)
+        try:
+            n11, n22 = number(g1, k1), number(g2, k2)
+        except (core.Unsupported, core.HarnessError, core.Cut, core.Infeasible):
+            raise
+        except Exception as e:
+            # the start number is not a closed-form function of the group index (e.g. a running counter): not encodable here
+            c.oblige('numbering:start number is a function of the group index (encodable)', z3.BoolVal(False), info=repr(e))
+            return dict()
+        c.oblige('numbering:distinct (group, position) pairs get distinct island numbers', z3.Implies(z3.Or(g1.e != g2.e, k1.e != k2.e), n11 != n22))
+        c.oblige('numbering:island numbers are non-negative', n11 >= 0)
         return dict()
     st, res = explore(h)
     rep.stats(st)
@@ -84,8 +92,8 @@ def k_numbering(rep):
         for ob in r['obligations']:
             rep.count(ob['result'], ob['name'])
             if ob['result'] == 'sat':
-                bad, cls, detail = priorized_oracle(nsrc=25)
-                rep.finding('C03/K-numbering/%s' % (cls or 'duplicate-island-numbers'), dict(kind='priorized', nsrc=25), detail or ob['name'], reproduced=bad)
+                bad, cls, detail = priorized_oracle(nsrc=30, blank=True)
+                rep.finding('C03/K-numbering/%s' % (cls or 'duplicate-island-numbers'), dict(kind='priorized', nsrc=30, blank=True), detail or ob['name'], reproduced=bad)
     rep.end_kernel()
 
 
@@ -120,7 +128,11 @@ def k_normalise(rep, mods):
         return dict()
     st, res = explore(h_shape, max_paths=400)
     rep.stats(st)
-    collect(rep, res, 'K-normalise')
+    for r in res:
+        for ob in r['obligations']:
+            if ob['result'] == 'sat':
+                ob['normalise_witness'] = {k: float(v) for k, v in ob['model'].items() if k in ('a', 'b', 'pa', 'err_a', 'err_b') and not isinstance(v, bool)}
+    collect_normalise(rep, res)
     try:
         f = slicer.get_function(F, 'result_to_components', 'SourceFinder')
         node = [n for n in ast.walk(f) if isinstance(n, ast.If) and ast.unparse(n.test).replace(' ', '') == 'source.ra<0']
@@ -144,6 +156,45 @@ def k_normalise(rep, mods):
         rep.stats(st)
         collect(rep, res, 'K-normalise')
     rep.end_kernel()
+
+
+def normalise_oracle(w):
+    """the real fix_shape + pa_limit on concrete values"""
+    sf = loader.real('source_finder')
+
+    class S:
+        pass
+    cands = [w] + [dict(a=3.0, b=2.0, pa=p, err_a=0.1, err_b=0.2) for p in (90.0, -90.0, 270.0, -270.0, 450.0, 95.0, -180.0, 0.0, 89.999)] + [dict(a=2.0, b=3.0, pa=p, err_a=0.1, err_b=0.2) for p in (0.0, 45.0, 90.0, -135.0)]
+    for v in cands:
+        if not v or v.get('a', 0) <= 0 or v.get('b', 0) <= 0:
+            continue
+        s = S()
+        s.a, s.b, s.pa, s.err_a, s.err_b = v['a'], v['b'], v.get('pa', 0.0), v.get('err_a', 0.1), v.get('err_b', 0.2)
+        sf.fix_shape(s)
+        out = sf.pa_limit(s.pa)
+        swapped = v['a'] < v['b']
+        want = v.get('pa', 0.0) + (90 if swapped else 0)
+        if not (-90 < out <= 90):
+            return True, 'pa-range', 'pa_limit(fix_shape(a=%(a)r, b=%(b)r, pa=%(pa)r))' % v + ' = %r is outside (-90, 90]' % out
+        if abs(((out - want + 90) % 180) - 90) > 1e-9:
+            return True, 'pa-ellipse', 'pa %r for input %r (not the same ellipse)' % (out, v)
+        if not (s.a >= s.b) or sorted([s.a, s.b]) != sorted([v['a'], v['b']]) or (swapped and (s.err_a, s.err_b) != (v.get('err_b', 0.2), v.get('err_a', 0.1))):
+            return True, 'axes', 'fix_shape(%r) gave a=%r b=%r err_a=%r err_b=%r' % (v, s.a, s.b, s.err_a, s.err_b)
+    return False, None, None
+
+
+def collect_normalise(rep, res):
+    done = False
+    for r in res:
+        for ob in r['obligations']:
+            rep.count(ob['result'], ob['name'])
+            if ob['result'] == 'sat' and not done:
+                w = ob.get('normalise_witness') or {}
+                bad, cls, detail = normalise_oracle(w)
+                if rep.finding('C03/K-normalise/%s' % (cls or ob['name'].split(':')[-1]), dict(kind='normalise', values=w), detail or ob['name'], reproduced=bad) != 'not-reproduced':
+                    done = True
+    if res:
+        rep.sample(dict(kernel='K-normalise', paths=len(res), obligations=[(o['name'].split(':', 1)[-1][:80], o['result']) for o in res[0]['obligations']][:8]))
 
 
 # ------------------------------------------------------------------ K-errors
@@ -384,7 +435,7 @@ def row_invariants(srcs, what):
     return False, None, None
 
 
-def priorized_oracle(nsrc=25, stages=(1,)):
+def priorized_oracle(nsrc=25, stages=(1,), blank=False):
     """real blind run (twice, must be identical) then real priorized runs over > 20 groups; catalogue row invariants"""
     sfm = loader.real('source_finder')
     d = tempfile.mkdtemp(prefix='c03_', dir='/var/tmp')
@@ -405,6 +456,13 @@ def priorized_oracle(nsrc=25, stages=(1,)):
             for cn in cols:
                 if getattr(a, cn) != getattr(b, cn):
                     return True, 'not-reproducible', 'second run differs in %s: %r vs %r' % (cn, getattr(a, cn), getattr(b, cn))
+        if blank:
+            # one catalogued source of the first batch now sits on blank pixels: it yields no row, the rest must stay consistent
+            from astropy.io import fits as _fits
+            with _fits.open(fn, mode='update') as hl:
+                t0 = truth[3]
+                r0, c0 = int(round(t0['row'])), int(round(t0['col']))
+                hl[0].data[r0 - 2:r0 + 3, c0 - 2:c0 + 3] = real_np.nan
         for st in stages:
             f = sfm.SourceFinder(log=logging.getLogger('c03'))
             pr = f.priorized_fit_islands(fn, catalogue=out[0], rms=0.05, bkg=0.0, stage=st, cores=1, doregroup=False)
@@ -465,10 +523,11 @@ def run(rep):
     k_flags(rep)
     rep.kernel('K-replay-oracle', functions=[F + ':SourceFinder.find_sources_in_image', F + ':SourceFinder.priorized_fit_islands'], bounds='a noise-free 25-source field: blind run twice (identical), priorized stage 1 over 25 islands (> 20: two groups), every row invariant of the statement',
                assumes=['concrete executions at the level of the property statement'])
-    bad, cls, detail = priorized_oracle(25, stages=(1, 3) if thorough else (1,))
-    rep.validated_runs(3)
-    if bad:
-        rep.finding('C03/K-numbering/%s' % cls if 'duplicate' in cls else 'C03/K-rows/%s' % cls, dict(kind='priorized', nsrc=25), detail)
+    for kw in (dict(nsrc=25, stages=(1, 3) if thorough else (1,)), dict(nsrc=30, stages=(1,), blank=True)):
+        bad, cls, detail = priorized_oracle(**kw)
+        rep.validated_runs(3)
+        if bad:
+            rep.finding('C03/K-numbering/%s' % cls if ('duplicate' in cls or 'numbering' in cls) else 'C03/K-rows/%s' % cls, dict(kind='priorized', nsrc=kw['nsrc'], blank=bool(kw.get('blank'))), detail)
     bad, cls, detail = errors_oracle()
     rep.validated_runs(4)
     if bad:
@@ -482,8 +541,10 @@ def replay(w):
     wit = w['witness']
     if wit.get('kind') == 'errors':
         bad, cls, detail = errors_oracle()
+    elif wit.get('kind') == 'normalise':
+        bad, cls, detail = normalise_oracle(wit.get('values') or {})
     else:
-        bad, cls, detail = priorized_oracle(int(wit.get('nsrc', 25)))
+        bad, cls, detail = priorized_oracle(int(wit.get('nsrc', 25)), blank=bool(wit.get('blank')))
     return bad, '%s: %s' % (cls, detail)
 
 
